@@ -147,6 +147,7 @@ type Ctx struct {
 	onceDone   map[*Cell]bool
 	wgs        map[string]int64 // sync.WaitGroup counters by object
 	rec        *concRec         // non-nil: thread-trace recording mode (conc.go)
+	fmodCache  map[string]*Term // math.Mod contract model: result per operand pair
 	inGoPanic  bool
 	mapPolicy  int
 	pools      map[*Cell][]Value
